@@ -40,9 +40,11 @@ def public_inputs(c, rnd, scale):
     for (x, y) in pts:
         items.append(("valid", enc(x, y)))
         items.append(("valid_negated", enc(x, p - y)))
-        items.append(("offcurve_y_plus_1", enc(x, (y + 1) % p)))
-        items.append(("offcurve_x_plus_1", enc((x + 1) % p, y)))
-        items.append(("offcurve_swapped", enc(y, x)))
+        # each invalid relative is followed by the valid key itself: a verdict must not depend on what was parsed before
+        for cls, bad in (("offcurve_y_plus_1", enc(x, (y + 1) % p)), ("offcurve_x_plus_1", enc((x + 1) % p, y)), ("offcurve_swapped", enc(y, x)),
+                         ("offcurve_words_rotated", bytes([4]) + (enc(x, y)[9:] + enc(x, y)[1:9])), ("offcurve_bytes_reversed", bytes([4]) + enc(x, y)[:0:-1])):
+            items.append((cls, bad))
+            items.append(("valid_again", enc(x, y)))
     # leading zero bytes in x / y: search a few random points for them is hopeless; use small x
     for (x, y) in small_x_points(c, 2, lo=rnd.randrange(2, 1 << 20)):
         items.append(("valid_small_x", enc(x, y)))
